@@ -16,6 +16,29 @@ mod git_commit_parser;
 mod pos_conv;
 // --- harness ---
 mod common;
+// mrules.rs compiles the child structs of the four `merge_linters!` rules (private modules of harper-core) from their real source
+// files; those files say `crate::{CharString, CharStringExt, Lint, Lrc, Token, TokenStringExt}`, `crate::linting::…`,
+// `crate::patterns::…` and `crate::char_string::char_string!` (a `pub(crate)` three-line macro of harper-core, repeated here)
+mod mrules;
+pub(crate) use harper_core::linting::Lint;
+pub(crate) use harper_core::{CharString, CharStringExt, Lrc, Token, TokenStringExt};
+pub(crate) mod linting {
+    pub use harper_core::linting::*;
+}
+pub(crate) mod patterns {
+    pub use harper_core::patterns::*;
+}
+pub(crate) mod char_string {
+    pub use harper_core::CharString;
+    macro_rules! char_string {
+        ($string:literal) => {{
+            use crate::char_string::CharString;
+
+            $string.chars().collect::<CharString>()
+        }};
+    }
+    pub(crate) use char_string;
+}
 mod rules2;
 mod prules;
 mod leaves;
@@ -129,6 +152,7 @@ fn main() {
         "LEAVES" => leaves::run(&ctx),
         "PRULES" => prules::run(&ctx),
         "RULES2" => rules2::run(&ctx),
+        "MRULES" => mrules::run(&ctx),
         _ => {
             eprintln!("unknown property {}", prop);
             std::process::exit(2);
